@@ -10,6 +10,8 @@ SPEC = {'id': 'C09',
               ('Snowflake.Props.C09', 'Snowflake.Encap.C09.padding_exact'),
               ('Snowflake.Props.C09', 'Snowflake.Encap.C09.maxData_fits'),
               ('Snowflake.Props.C09', 'Snowflake.Encap.C09.maxData_within_one'),
+              ('Snowflake.Props.C09', 'Snowflake.Encap.C09.maxData_mono'),
+              ('Snowflake.Props.C09', 'Snowflake.Encap.C09.maxData_bounded'),
               ('Snowflake.Props.C09', 'Snowflake.Encap.C09.pinned_zero_read_misparses'),
               ('Snowflake.Props.C09', 'Snowflake.Encap.C09.pinned_data_with_eof_loses_chunk')],
  'ties': [('Snowflake.Tie.Encap', 'Snowflake.Tie.Encap.dataPrefix_tie'),
